@@ -264,7 +264,13 @@ def structural_names(repo):
 
 
 from contracts.common import structural_signature_key as _sigkey
-STRUCTURAL = [structural_names, _sigkey]
+def _source_bytes(repo):
+    """reported columns and get_line_code() refer to the text as it is on disk (\\r\\n and \\r kept): shared with C07"""
+    from contracts import c07
+    return c07.structural_source_read_as_bytes(repo)
+
+
+STRUCTURAL = [structural_names, _sigkey, _source_bytes]
 def _standin(repo, seed, tier):
     from pyvc.standin import run_standin
     return run_standin('C17', tier, seed, repo)
